@@ -437,511 +437,235 @@ fn whole_run(n: usize, cut: usize) {
     forget(b_src);
 }
 
-// ---- harness instances (generated): state concrete, buffer length concrete, bytes and size symbolic
+// ---- harness instances (generated).  One harness = one lemma at one CONCRETE buffer length, run for
+// a group of concrete decoder states in turn (state concrete per call; bytes and size counter symbolic).
 #[kani::proof]
 #[kani::unwind(6)]
-fn c01_step_size_b0() {
+fn c01_step_size_line_b0() {
     step_lemma(St::Size, 0);
-}
-#[kani::proof]
-#[kani::unwind(6)]
-fn c01_step_size_b1() {
-    step_lemma(St::Size, 1);
-}
-#[kani::proof]
-#[kani::unwind(6)]
-fn c01_step_size_b2() {
-    step_lemma(St::Size, 2);
-}
-#[kani::proof]
-#[kani::unwind(6)]
-fn c01_step_size_b3_t() {
-    step_lemma(St::Size, 3);
-}
-#[kani::proof]
-#[kani::unwind(6)]
-fn c01_step_size_b4_t() {
-    step_lemma(St::Size, 4);
-}
-#[kani::proof]
-#[kani::unwind(6)]
-fn c01_step_size_lws_b0() {
     step_lemma(St::SizeLws, 0);
-}
-#[kani::proof]
-#[kani::unwind(6)]
-fn c01_step_size_lws_b1() {
-    step_lemma(St::SizeLws, 1);
-}
-#[kani::proof]
-#[kani::unwind(6)]
-fn c01_step_size_lws_b2() {
-    step_lemma(St::SizeLws, 2);
-}
-#[kani::proof]
-#[kani::unwind(6)]
-fn c01_step_size_lws_b3_t() {
-    step_lemma(St::SizeLws, 3);
-}
-#[kani::proof]
-#[kani::unwind(6)]
-fn c01_step_size_lws_b4_t() {
-    step_lemma(St::SizeLws, 4);
-}
-#[kani::proof]
-#[kani::unwind(6)]
-fn c01_step_extension_b0() {
     step_lemma(St::Extension, 0);
-}
-#[kani::proof]
-#[kani::unwind(6)]
-fn c01_step_extension_b1() {
-    step_lemma(St::Extension, 1);
-}
-#[kani::proof]
-#[kani::unwind(6)]
-fn c01_step_extension_b2() {
-    step_lemma(St::Extension, 2);
-}
-#[kani::proof]
-#[kani::unwind(6)]
-fn c01_step_extension_b3_t() {
-    step_lemma(St::Extension, 3);
-}
-#[kani::proof]
-#[kani::unwind(6)]
-fn c01_step_extension_b4_t() {
-    step_lemma(St::Extension, 4);
-}
-#[kani::proof]
-#[kani::unwind(6)]
-fn c01_step_size_lf_b0() {
     step_lemma(St::SizeLf, 0);
-}
-#[kani::proof]
-#[kani::unwind(6)]
-fn c01_step_size_lf_b1() {
-    step_lemma(St::SizeLf, 1);
-}
-#[kani::proof]
-#[kani::unwind(6)]
-fn c01_step_size_lf_b2() {
-    step_lemma(St::SizeLf, 2);
-}
-#[kani::proof]
-#[kani::unwind(6)]
-fn c01_step_size_lf_b3_t() {
-    step_lemma(St::SizeLf, 3);
-}
-#[kani::proof]
-#[kani::unwind(6)]
-fn c01_step_size_lf_b4_t() {
-    step_lemma(St::SizeLf, 4);
 }
 #[kani::proof]
 #[kani::unwind(6)]
 fn c01_step_body_b0() {
     step_lemma(St::Body, 0);
+    step_lemma(St::BodyCr, 0);
+    step_lemma(St::BodyLf, 0);
+}
+#[kani::proof]
+#[kani::unwind(6)]
+fn c01_step_end_b0() {
+    step_lemma(St::EndCr, 0);
+    step_lemma(St::EndLf, 0);
+    step_lemma(St::End, 0);
+}
+#[kani::proof]
+#[kani::unwind(6)]
+fn c01_step_size_line_b1() {
+    step_lemma(St::Size, 1);
+    step_lemma(St::SizeLws, 1);
+    step_lemma(St::Extension, 1);
+    step_lemma(St::SizeLf, 1);
 }
 #[kani::proof]
 #[kani::unwind(6)]
 fn c01_step_body_b1() {
     step_lemma(St::Body, 1);
+    step_lemma(St::BodyCr, 1);
+    step_lemma(St::BodyLf, 1);
+}
+#[kani::proof]
+#[kani::unwind(6)]
+fn c01_step_end_b1() {
+    step_lemma(St::EndCr, 1);
+    step_lemma(St::EndLf, 1);
+    step_lemma(St::End, 1);
+}
+#[kani::proof]
+#[kani::unwind(6)]
+fn c01_step_size_line_b2() {
+    step_lemma(St::Size, 2);
+    step_lemma(St::SizeLws, 2);
+    step_lemma(St::Extension, 2);
+    step_lemma(St::SizeLf, 2);
 }
 #[kani::proof]
 #[kani::unwind(6)]
 fn c01_step_body_b2() {
     step_lemma(St::Body, 2);
+    step_lemma(St::BodyCr, 2);
+    step_lemma(St::BodyLf, 2);
+}
+#[kani::proof]
+#[kani::unwind(6)]
+fn c01_step_end_b2() {
+    step_lemma(St::EndCr, 2);
+    step_lemma(St::EndLf, 2);
+    step_lemma(St::End, 2);
+}
+#[kani::proof]
+#[kani::unwind(6)]
+fn c01_step_size_line_b3_t() {
+    step_lemma(St::Size, 3);
+    step_lemma(St::SizeLws, 3);
+    step_lemma(St::Extension, 3);
+    step_lemma(St::SizeLf, 3);
 }
 #[kani::proof]
 #[kani::unwind(6)]
 fn c01_step_body_b3_t() {
     step_lemma(St::Body, 3);
+    step_lemma(St::BodyCr, 3);
+    step_lemma(St::BodyLf, 3);
+}
+#[kani::proof]
+#[kani::unwind(6)]
+fn c01_step_end_b3_t() {
+    step_lemma(St::EndCr, 3);
+    step_lemma(St::EndLf, 3);
+    step_lemma(St::End, 3);
+}
+#[kani::proof]
+#[kani::unwind(6)]
+fn c01_step_size_line_b4_t() {
+    step_lemma(St::Size, 4);
+    step_lemma(St::SizeLws, 4);
+    step_lemma(St::Extension, 4);
+    step_lemma(St::SizeLf, 4);
 }
 #[kani::proof]
 #[kani::unwind(6)]
 fn c01_step_body_b4_t() {
     step_lemma(St::Body, 4);
-}
-#[kani::proof]
-#[kani::unwind(6)]
-fn c01_step_body_cr_b0() {
-    step_lemma(St::BodyCr, 0);
-}
-#[kani::proof]
-#[kani::unwind(6)]
-fn c01_step_body_cr_b1() {
-    step_lemma(St::BodyCr, 1);
-}
-#[kani::proof]
-#[kani::unwind(6)]
-fn c01_step_body_cr_b2() {
-    step_lemma(St::BodyCr, 2);
-}
-#[kani::proof]
-#[kani::unwind(6)]
-fn c01_step_body_cr_b3_t() {
-    step_lemma(St::BodyCr, 3);
-}
-#[kani::proof]
-#[kani::unwind(6)]
-fn c01_step_body_cr_b4_t() {
     step_lemma(St::BodyCr, 4);
-}
-#[kani::proof]
-#[kani::unwind(6)]
-fn c01_step_body_lf_b0() {
-    step_lemma(St::BodyLf, 0);
-}
-#[kani::proof]
-#[kani::unwind(6)]
-fn c01_step_body_lf_b1() {
-    step_lemma(St::BodyLf, 1);
-}
-#[kani::proof]
-#[kani::unwind(6)]
-fn c01_step_body_lf_b2() {
-    step_lemma(St::BodyLf, 2);
-}
-#[kani::proof]
-#[kani::unwind(6)]
-fn c01_step_body_lf_b3_t() {
-    step_lemma(St::BodyLf, 3);
-}
-#[kani::proof]
-#[kani::unwind(6)]
-fn c01_step_body_lf_b4_t() {
     step_lemma(St::BodyLf, 4);
 }
 #[kani::proof]
 #[kani::unwind(6)]
-fn c01_step_end_cr_b0() {
-    step_lemma(St::EndCr, 0);
-}
-#[kani::proof]
-#[kani::unwind(6)]
-fn c01_step_end_cr_b1() {
-    step_lemma(St::EndCr, 1);
-}
-#[kani::proof]
-#[kani::unwind(6)]
-fn c01_step_end_cr_b2() {
-    step_lemma(St::EndCr, 2);
-}
-#[kani::proof]
-#[kani::unwind(6)]
-fn c01_step_end_cr_b3_t() {
-    step_lemma(St::EndCr, 3);
-}
-#[kani::proof]
-#[kani::unwind(6)]
-fn c01_step_end_cr_b4_t() {
-    step_lemma(St::EndCr, 4);
-}
-#[kani::proof]
-#[kani::unwind(6)]
-fn c01_step_end_lf_b0() {
-    step_lemma(St::EndLf, 0);
-}
-#[kani::proof]
-#[kani::unwind(6)]
-fn c01_step_end_lf_b1() {
-    step_lemma(St::EndLf, 1);
-}
-#[kani::proof]
-#[kani::unwind(6)]
-fn c01_step_end_lf_b2() {
-    step_lemma(St::EndLf, 2);
-}
-#[kani::proof]
-#[kani::unwind(6)]
-fn c01_step_end_lf_b3_t() {
-    step_lemma(St::EndLf, 3);
-}
-#[kani::proof]
-#[kani::unwind(6)]
-fn c01_step_end_lf_b4_t() {
-    step_lemma(St::EndLf, 4);
-}
-#[kani::proof]
-#[kani::unwind(6)]
-fn c01_step_end_b0() {
-    step_lemma(St::End, 0);
-}
-#[kani::proof]
-#[kani::unwind(6)]
-fn c01_step_end_b1() {
-    step_lemma(St::End, 1);
-}
-#[kani::proof]
-#[kani::unwind(6)]
-fn c01_step_end_b2() {
-    step_lemma(St::End, 2);
-}
-#[kani::proof]
-#[kani::unwind(6)]
-fn c01_step_end_b3_t() {
-    step_lemma(St::End, 3);
-}
-#[kani::proof]
-#[kani::unwind(6)]
 fn c01_step_end_b4_t() {
+    step_lemma(St::EndCr, 4);
+    step_lemma(St::EndLf, 4);
     step_lemma(St::End, 4);
 }
 #[kani::proof]
 #[kani::unwind(7)]
-fn c01_decode_size_b0() {
+fn c01_decode_size_line_b0() {
     decode_lemma(St::Size, 0);
-}
-#[kani::proof]
-#[kani::unwind(7)]
-fn c01_decode_size_b1() {
-    decode_lemma(St::Size, 1);
-}
-#[kani::proof]
-#[kani::unwind(7)]
-fn c01_decode_size_lws_b0() {
     decode_lemma(St::SizeLws, 0);
-}
-#[kani::proof]
-#[kani::unwind(7)]
-fn c01_decode_size_lws_b1() {
-    decode_lemma(St::SizeLws, 1);
-}
-#[kani::proof]
-#[kani::unwind(7)]
-fn c01_decode_extension_b0() {
     decode_lemma(St::Extension, 0);
-}
-#[kani::proof]
-#[kani::unwind(7)]
-fn c01_decode_extension_b1() {
-    decode_lemma(St::Extension, 1);
-}
-#[kani::proof]
-#[kani::unwind(7)]
-fn c01_decode_size_lf_b0() {
     decode_lemma(St::SizeLf, 0);
-}
-#[kani::proof]
-#[kani::unwind(7)]
-fn c01_decode_size_lf_b1() {
-    decode_lemma(St::SizeLf, 1);
 }
 #[kani::proof]
 #[kani::unwind(7)]
 fn c01_decode_body_b0() {
     decode_lemma(St::Body, 0);
-}
-#[kani::proof]
-#[kani::unwind(7)]
-fn c01_decode_body_cr_b0() {
     decode_lemma(St::BodyCr, 0);
-}
-#[kani::proof]
-#[kani::unwind(7)]
-fn c01_decode_body_cr_b1() {
-    decode_lemma(St::BodyCr, 1);
-}
-#[kani::proof]
-#[kani::unwind(7)]
-fn c01_decode_body_lf_b0() {
     decode_lemma(St::BodyLf, 0);
 }
 #[kani::proof]
 #[kani::unwind(7)]
-fn c01_decode_body_lf_b1() {
-    decode_lemma(St::BodyLf, 1);
-}
-#[kani::proof]
-#[kani::unwind(7)]
-fn c01_decode_end_cr_b0() {
-    decode_lemma(St::EndCr, 0);
-}
-#[kani::proof]
-#[kani::unwind(7)]
-fn c01_decode_end_cr_b1() {
-    decode_lemma(St::EndCr, 1);
-}
-#[kani::proof]
-#[kani::unwind(7)]
-fn c01_decode_end_lf_b0() {
-    decode_lemma(St::EndLf, 0);
-}
-#[kani::proof]
-#[kani::unwind(7)]
-fn c01_decode_end_lf_b1() {
-    decode_lemma(St::EndLf, 1);
-}
-#[kani::proof]
-#[kani::unwind(7)]
 fn c01_decode_end_b0() {
+    decode_lemma(St::EndCr, 0);
+    decode_lemma(St::EndLf, 0);
     decode_lemma(St::End, 0);
 }
 #[kani::proof]
 #[kani::unwind(7)]
+fn c01_decode_size_line_b1() {
+    decode_lemma(St::Size, 1);
+    decode_lemma(St::SizeLws, 1);
+    decode_lemma(St::Extension, 1);
+    decode_lemma(St::SizeLf, 1);
+}
+#[kani::proof]
+#[kani::unwind(7)]
+fn c01_decode_body_b1() {
+    decode_lemma(St::BodyCr, 1);
+    decode_lemma(St::BodyLf, 1);
+}
+#[kani::proof]
+#[kani::unwind(7)]
 fn c01_decode_end_b1() {
+    decode_lemma(St::EndCr, 1);
+    decode_lemma(St::EndLf, 1);
     decode_lemma(St::End, 1);
 }
 #[kani::proof]
 #[kani::unwind(7)]
-fn c01_decode_body_size1_b1() {
+fn c01_decode_body_concrete_sizes() {
     decode_lemma_with(St::Body, 1, None, Some(1));
-}
-#[kani::proof]
-#[kani::unwind(7)]
-fn c01_decode_body_size2_b1() {
     decode_lemma_with(St::Body, 1, None, Some(2));
-}
-#[kani::proof]
-#[kani::unwind(7)]
-fn c01_decode_body_size1_b2() {
     decode_lemma_with(St::Body, 2, None, Some(1));
-}
-#[kani::proof]
-#[kani::unwind(7)]
-fn c01_decode_body_size2_b2() {
     decode_lemma_with(St::Body, 2, None, Some(2));
-}
-#[kani::proof]
-#[kani::unwind(7)]
-fn c01_decode_body_size3_b2() {
     decode_lemma_with(St::Body, 2, None, Some(3));
 }
+// two loop iterations of decode: concrete first byte (one per edge of the grammar), symbolic second byte
 #[kani::proof]
 #[kani::unwind(7)]
-fn c01_decode2_size_digit() {
-    decode_lemma_with(St::Size, 2, Some(b'1'), Some(0));
-}
-#[kani::proof]
-#[kani::unwind(7)]
-fn c01_decode2_size_digit_near_overflow() {
-    // 0x0fff_ffff_ffff_ffff * 16 + 1 fits; the next digit must be rejected
-    decode_lemma_with(St::Size, 2, Some(b'1'), Some(0x0fff_ffff_ffff_ffff));
-}
-#[kani::proof]
-#[kani::unwind(7)]
-fn c01_decode2_size_sp() {
+fn c01_decode2_edges_part1() {
+    decode_lemma_with(St::Size, 2, Some(b'1'), Some(0x0));
+    decode_lemma_with(St::Size, 2, Some(b'1'), Some(0xfffffffffffffff));
     decode_lemma_with(St::Size, 2, Some(b' '), None);
-}
-#[kani::proof]
-#[kani::unwind(7)]
-fn c01_decode2_size_semi() {
     decode_lemma_with(St::Size, 2, Some(b';'), None);
 }
+// two loop iterations of decode: concrete first byte (one per edge of the grammar), symbolic second byte
 #[kani::proof]
 #[kani::unwind(7)]
-fn c01_decode2_size_cr() {
+fn c01_decode2_edges_part2() {
     decode_lemma_with(St::Size, 2, Some(b'\r'), None);
-}
-#[kani::proof]
-#[kani::unwind(7)]
-fn c01_decode2_size_lws_tab() {
+    decode_lemma_with(St::Size, 2, Some(b'g'), None);
     decode_lemma_with(St::SizeLws, 2, Some(b'\t'), None);
-}
-#[kani::proof]
-#[kani::unwind(7)]
-fn c01_decode2_size_lws_semi() {
     decode_lemma_with(St::SizeLws, 2, Some(b';'), None);
 }
+// two loop iterations of decode: concrete first byte (one per edge of the grammar), symbolic second byte
 #[kani::proof]
 #[kani::unwind(7)]
-fn c01_decode2_size_lws_cr() {
+fn c01_decode2_edges_part3() {
     decode_lemma_with(St::SizeLws, 2, Some(b'\r'), None);
-}
-#[kani::proof]
-#[kani::unwind(7)]
-fn c01_decode2_extension_char() {
     decode_lemma_with(St::Extension, 2, Some(b'x'), None);
-}
-#[kani::proof]
-#[kani::unwind(7)]
-fn c01_decode2_extension_cr() {
     decode_lemma_with(St::Extension, 2, Some(b'\r'), None);
+    decode_lemma_with(St::SizeLf, 2, Some(b'\n'), Some(0x0));
 }
+// two loop iterations of decode: concrete first byte (one per edge of the grammar), symbolic second byte
 #[kani::proof]
 #[kani::unwind(7)]
-fn c01_decode2_size_lf_lf_last() {
-    decode_lemma_with(St::SizeLf, 2, Some(b'\n'), Some(0));
-}
-#[kani::proof]
-#[kani::unwind(7)]
-fn c01_decode2_size_lf_lf_data() {
-    decode_lemma_with(St::SizeLf, 2, Some(b'\n'), Some(5));
-}
-#[kani::proof]
-#[kani::unwind(7)]
-fn c01_decode2_body_cr_cr() {
+fn c01_decode2_edges_part4() {
+    decode_lemma_with(St::SizeLf, 2, Some(b'\n'), Some(0x5));
     decode_lemma_with(St::BodyCr, 2, Some(b'\r'), None);
-}
-#[kani::proof]
-#[kani::unwind(7)]
-fn c01_decode2_body_lf_lf() {
     decode_lemma_with(St::BodyLf, 2, Some(b'\n'), None);
-}
-#[kani::proof]
-#[kani::unwind(7)]
-fn c01_decode2_end_cr_cr() {
     decode_lemma_with(St::EndCr, 2, Some(b'\r'), None);
-}
-#[kani::proof]
-#[kani::unwind(7)]
-fn c01_decode2_end_lf_lf() {
     decode_lemma_with(St::EndLf, 2, Some(b'\n'), None);
 }
 #[kani::proof]
-#[kani::unwind(7)]
-fn c01_decode2_size_bad() {
-    decode_lemma_with(St::Size, 2, Some(b'g'), None);
-}
-#[kani::proof]
 #[kani::unwind(6)]
-fn c01_length_b0() {
+fn c01_length_and_eof_b0() {
     length_lemma(0);
-}
-#[kani::proof]
-#[kani::unwind(6)]
-fn c01_eof_b0() {
     eof_lemma(0);
 }
 #[kani::proof]
 #[kani::unwind(6)]
-fn c01_length_b1() {
+fn c01_length_and_eof_b1() {
     length_lemma(1);
-}
-#[kani::proof]
-#[kani::unwind(6)]
-fn c01_eof_b1() {
     eof_lemma(1);
 }
 #[kani::proof]
 #[kani::unwind(6)]
-fn c01_length_b2() {
+fn c01_length_and_eof_b2() {
     length_lemma(2);
-}
-#[kani::proof]
-#[kani::unwind(6)]
-fn c01_eof_b2() {
     eof_lemma(2);
 }
 #[kani::proof]
 #[kani::unwind(6)]
-fn c01_length_b3_t() {
+fn c01_length_and_eof_b3_t() {
     length_lemma(3);
-}
-#[kani::proof]
-#[kani::unwind(6)]
-fn c01_eof_b3_t() {
     eof_lemma(3);
 }
 #[kani::proof]
 #[kani::unwind(6)]
-fn c01_length_b4_t() {
+fn c01_length_and_eof_b4_t() {
     length_lemma(4);
-}
-#[kani::proof]
-#[kani::unwind(6)]
-fn c01_eof_b4_t() {
     eof_lemma(4);
 }
 #[kani::proof]
